@@ -165,6 +165,22 @@ def fline(size, hint, sched, data):
     return "F %d %d %d %s %s" % (size, hint, len(sched), " ".join(map(str, sched)), data.hex() or "-")
 
 
+def corpus_case(ln):
+    t = ln.split()
+    c = {"line": ln, "group": "corpus:" + ln[:60], "corpus": True, "sk": "corpus", "stream": "corpus"}
+    if t[0] == "R":
+        c["rabin"] = (int(t[1], 16), int(t[2]), int(t[3]), int(t[4]))
+        hx = t[7 + int(t[6])]
+        c["data"] = b"" if hx == "-" else bytes.fromhex(hx)
+    elif t[0] == "F":
+        c["fixed"] = int(t[1])
+        hx = t[4 + int(t[3])]
+        c["data"] = b"" if hx == "-" else bytes.fromhex(hx)
+    elif t[0] == "P":
+        c["accept"] = (int(t[1]), int(t[2]), int(t[3]))
+    return c
+
+
 def run_sharded(exe, lines, mode, tag, nshard):
     """run an executable over the case lines in nshard parallel shards (order preserved)."""
     bdir = os.path.join(vlib.BUILD, "C06")
@@ -254,10 +270,10 @@ def run(ctx):
     if os.path.exists(corpus):
         for ln in open(corpus):
             ln = ln.split("#")[0].strip()
-            if ln: cases.append({"line": ln, "group": "corpus:" + ln[:60], "corpus": True})
+            if ln: cases.append(corpus_case(ln))
     if ctx.replay:
         rp = json.load(open(ctx.replay))
-        cases = [{"line": c, "group": "replay", "corpus": True} for c in rp["witness"].get("cases", [rp["witness"].get("case")]) if c]
+        cases = [corpus_case(c) for c in rp["witness"].get("cases", [rp["witness"].get("case")]) if c]
         ngroups = 0
     for g in range(ngroups):
         u = rng.random()
@@ -290,8 +306,12 @@ def run(ctx):
     for a in grid:
         for mi in [0] + grid:
             for ma in grid:
-                if rng.random() < (1.0 if thorough else 0.1):
+                if rng.random() < (1.0 if thorough else 0.06):
                     cases.append({"line": "P %d %d %d" % (a, mi, ma), "group": "P", "accept": (a, mi, ma)})
+    for a in [4096, 8192, 65536, 2 ** 20, 2 ** 33]:       # around the acceptance boundaries
+        for mi in [0, 63, 64, BUF - 2, BUF - 1, BUF, BUF + 1, a - 1, a, a + 1]:
+            for ma in [a - 1, a, a + 1, 2 * a, 2 ** 40]:
+                cases.append({"line": "P %d %d %d" % (a, mi, ma), "group": "P", "accept": (a, mi, ma)})
     lines = [c["line"] for c in cases]
     nshard = min(vlib.NCPU, 16)
     impl_out = run_sharded(impl, lines, None, "impl", 4)
